@@ -189,50 +189,52 @@ Lemma goes_on_not_end q sym : goes_on q sym ->
   (q = false -> is_word_char sym = false -> False) /\ (q = true -> sym_eqb sym (SChar 34) = true -> False).
 Proof. unfold goes_on. destruct q; split; intros; congruence. Qed.
 
+Ltac same_sym :=
+  repeat match goal with
+  | A : sym_at ?l = SymOk _ _, B : sym_at ?l = SymOk _ _ |- _ =>
+      rewrite A in B; injection B as ? ?; subst
+  | A : sym_at ?l = SymOk _ _, B : sym_at ?l = SymEnd |- _ => rewrite A in B; discriminate B
+  | A : sym_at ?l = SymOk _ _, B : sym_at ?l = SymErr |- _ => rewrite A in B; discriminate B
+  | A : sym_at ?l = SymEnd, B : sym_at ?l = SymErr |- _ => rewrite A in B; discriminate B
+  end.
+Ltac clash :=
+  solve [ match goal with
+          | G : goes_on _ _ |- _ => destruct (goes_on_not_end _ _ G) as [? ?]; exfalso; eauto
+          end ].
+
 Lemma Toks_det q l s1 l1 : Toks q l s1 l1 -> forall s2 l2, Toks q l s2 l2 -> s1 = s2 /\ l1 = l2.
 Proof.
-  induction 1 as [l sym n Hq Hs Hw | l sym n Hq Hs He | l sym n syms l' Hs Hg HT IH]; intros s2 l2 H2.
-  - inversion H2; subst; auto.
-    + congruence.
-    + rewrite Hs in H. injection H as <- <-. destruct (goes_on_not_end _ _ H0) as [A _]. exfalso; auto.
-  - inversion H2; subst; auto.
-    + congruence.
-    + rewrite Hs in H. injection H as <- <-. auto.
-    + rewrite Hs in H. injection H as <- <-. destruct (goes_on_not_end _ _ H0) as [_ A]. exfalso; auto.
-  - inversion H2; subst.
-    + rewrite Hs in H0. injection H0 as <- <-. destruct (goes_on_not_end _ _ Hg) as [A _]. exfalso; auto.
-    + rewrite Hs in H0. injection H0 as <- <-. destruct (goes_on_not_end _ _ Hg) as [_ A]. exfalso; auto.
-    + rewrite Hs in H. injection H as <- <-. destruct (IH _ _ H1) as [-> ->]. auto.
+  induction 1 as [l sym n Hq Hs Hw | l sym n Hq Hs He | l sym n syms l' Hs Hg HT IH]; intros s2 l2 H2;
+    inversion H2; subst; same_sym; auto; try congruence; try clash.
+  match goal with T : Toks _ (skipn _ _) _ _ |- _ => destruct (IH _ _ T) as [-> ->]; auto end.
 Qed.
 
 Lemma Toks_TokErr q l s l' : Toks q l s l' -> forall e, TokErr q l e -> False.
 Proof.
   induction 1 as [l sym n Hq Hs Hw | l sym n Hq Hs He | l sym n syms l' Hs Hg HT IH]; intros e H2;
-    inversion H2; subst; try congruence.
-  - rewrite Hs in H. injection H as <- <-. destruct (goes_on_not_end _ _ H0) as [A _]. auto.
-  - rewrite Hs in H. injection H as <- <-. destruct (goes_on_not_end _ _ H0) as [_ A]. auto.
-  - rewrite Hs in H. injection H as <- <-. eauto.
+    inversion H2; subst; same_sym; try congruence; try clash; eauto.
 Qed.
 
 Lemma TokErr_det q l e1 : TokErr q l e1 -> forall e2, TokErr q l e2 -> e1 = e2.
 Proof.
-  induction 1 as [l Hs | l Hs | l sym n e Hs Hg HT IH]; intros e2 H2; inversion H2; subst; try congruence.
-  rewrite Hs in H. injection H as <- <-. auto.
+  induction 1 as [l Hs | l Hs | l sym n e Hs Hg HT IH]; intros e2 H2; inversion H2; subst; same_sym;
+    try congruence; auto.
 Qed.
 
 Lemma Lex_det l p i1 e1 : Lex l p i1 e1 -> forall i2 e2, Lex l p i2 e2 -> i1 = i2 /\ e1 = e2.
 Proof.
   induction 1 as [l p V | l p p' h l' V | l p p' h l' its e V HL IH
                   | l p c p' h l' syms l'' its e V Hc HT HL IH | l p c p' h l' e V Hc HT];
-    intros i2 e2 H2; inversion H2; subst; try congruence;
-    match goal with
+    intros i2 e2 H2; inversion H2; subst;
+    try match goal with
     | A : ni_view ?l ?p false = _, B : ni_view ?l ?p false = _ |- _ => rewrite A in B; inversion B; subst
     end; try discriminate; auto.
-  - destruct (IH _ _ H0) as [-> ->]. auto.
-  - destruct (Toks_det _ _ _ _ HT _ _ H1) as [-> ->]. destruct (IH _ _ H3) as [-> ->]. auto.
+  - match goal with L : Lex _ _ _ _ |- _ => destruct (IH _ _ L) as [-> ->]; auto end.
+  - match goal with T : Toks _ _ _ _ |- _ => destruct (Toks_det _ _ _ _ HT _ _ T) as [-> ->] end.
+    match goal with L : Lex _ _ _ _ |- _ => destruct (IH _ _ L) as [-> ->]; auto end.
   - exfalso. eapply Toks_TokErr; eauto.
   - exfalso. eapply Toks_TokErr; eauto.
-  - rewrite (TokErr_det _ _ _ HT _ H1). auto.
+  - match goal with T : TokErr _ _ _ |- _ => rewrite (TokErr_det _ _ _ HT _ T); auto end.
 Qed.
 
 (* ------------------------------------------------------------------ locality *)
@@ -329,12 +331,12 @@ Proof.
     + cbn [app]. destruct (sym_at_delim d2 t2 Hd2 H21 H22) as [A B]. eapply TkEndU; eauto.
     + destruct (nonword_is_raw_delim _ _ _ (proj1 reader_guards_present) Hs Hw) as (c' & t' & El & -> & -> & Hd).
       eapply TkEndU; eauto. eapply sym_at_local; [exact Hs|]. cbn [length]. lia.
-  - pose proof (sym_at_len _ _ _ Hs) as Ln. rewrite skipn_length, app_length in Hl.
+  - pose proof (sym_at_len _ _ _ Hs) as Ln. rewrite skipn_length, app_length in Hl. rewrite app_length in Ln.
     assert (Hn : (n <= length u)%nat) by lia.
     exists (skipn n u). rewrite skipn_app_le by exact Hn. split; [reflexivity|].
     rewrite <- skipn_app_le by exact Hn. eapply TkEndQ; eauto. eapply sym_at_local; eauto.
   - pose proof (sym_at_len _ _ _ Hs) as Ln. pose proof (Toks_suffix _ _ _ _ HT) as Lt.
-    rewrite skipn_length, app_length in Lt.
+    rewrite skipn_length, app_length in Lt. rewrite app_length in Ln.
     assert (Hn : (n <= length u)%nat) by lia.
     destruct (IH (skipn n u) (skipn_app_le _ _ _ Hn) Hl) as (u' & -> & T').
     exists u'. split; [reflexivity|]. eapply TkStep; [eapply sym_at_local; eauto | exact Hg |].
@@ -357,7 +359,7 @@ Proof.
     assert (Step : forall i p0 h0, ni_loop (a ++ r1) i p0 h0 (S n0) = NiOk n c p' h' ->
                    ni_loop (a ++ r2) i p0 h0 (S n0) = NiOk n c p' h').
     { intros i p0 h0 H0. pose proof (ni_loop_bounds _ _ _ _ _ _ _ _ _ H0) as B.
-      apply IH; auto; try lia. intros Ec. specialize (Hu Ec). lia. }
+      apply IH; auto; try lia; intros Ec; specialize (Hu Ec); lia. }
     destruct (incom && negb (ch =? ni_comment_end)); [apply Step; exact H|].
     destruct (memN ch ni_space); [apply Step; exact H|].
     destruct (ch =? ni_cr_dead); [apply Step; exact H|].
@@ -511,7 +513,8 @@ Proof.
   intros HR. eapply layout_whole_file; eauto.
   - exists 32, (ni_newline :: t). repeat split; vm_compute; congruence.
   - exists 32, (13 :: ni_newline :: t). repeat split; vm_compute; congruence.
-  - intros p h. rewrite !ni_view_space by (vm_compute; reflexivity). symmetry. apply layout_crlf.
+  - intros p h. rewrite (ni_view_space 32 (ni_newline :: t)), (ni_view_space 32 (13 :: ni_newline :: t))
+      by (vm_compute; reflexivity). symmetry. apply layout_crlf.
 Qed.
 
 Example layout_whole_file_ex :
